@@ -451,7 +451,9 @@ def test_path(t):
 
 # ----------------------------------------------------------------------------------------------- assertions
 def templates(rng, st, consts_in_scope, labels, prev_text):
-    """candidate assertion expressions for machine state st = (pc, a, x, y, sp, p): (text, python value or None)"""
+    """candidate assertion expressions for machine state st = (pc, a, x, y, sp, p): (text, python value or None).
+    The language has two precedence levels only (* / % << >> ^ bind tighter than + - == != < > <= >= && ||, all left
+    associative), hence the parentheses."""
     pc, a, x, y, sp, p = st
     regs = {"cpu.a": a, "cpu.x": x, "cpu.y": y, "cpu.sp": sp}
     c = []
@@ -459,7 +461,7 @@ def templates(rng, st, consts_in_scope, labels, prev_text):
     c.append(("%s == %s" % (r, rng.choice(["$%02x" % v, str(v), "%%%s" % bin(v)[2:]])), 1))
     c.append(("%s != %d" % (r, v), 0))
     c.append(("%s == %d" % (r, (v + 1) % 256), 0))
-    c.append(("%s >= %d && %s < %d" % (r, v, r, v + 1), 1))
+    c.append(("(%s >= %d) && (%s < %d)" % (r, v, r, v + 1), 1))
     c.append(("%s < 256" % r, 1))
     c.append(("%s + 1 > %d" % (r, v), 1))
     c.append(("(%s ^ $ff) == %d" % (r, v ^ 255), 1))
@@ -485,15 +487,17 @@ def templates(rng, st, consts_in_scope, labels, prev_text):
         l, lv = rng.choice(labels)
         c.append(("%s %s *" % (l, rng.choice(["<=", ">=", "==", "!=", "<", ">"])), None))
         c.append(("ram(%s) == ram(%s)" % (l, l), 1))
-        c.append(("ram16(%s) == ram(%s) + 256 * ram(%s + 1)" % (l, l, l), 1))
-        c.append(("ram(%s) < 256 && ram16(%s) < 65536" % (l, l), 1))
+        c.append(("ram16(%s) == (ram(%s) + 256 * ram(%s + 1))" % (l, l, l), 1))
+        c.append(("(ram(%s) < 256) && (ram16(%s) < 65536)" % (l, l), 1))
         c.append(("ram(%s + cpu.x) >= 0" % l, 1))
         c.append(("ram16(%s) == %d" % (l, rng.randrange(65536)), None))
         c.append(("ram(%s) == %d" % (l, rng.randrange(256)), None))
         c.append(("<%s + 256 * >%s == %s" % (l, l, l), 1))
     zp = rng.randrange(ZP_LO, ZP_HI)
     c.append(("ram($%02x) == %d" % (zp, rng.choice([0, 0, rng.randrange(256)])), None))
-    c.append(("ram16($f0) == ram($f0) + ram($f1) * 256", 1))
+    c.append(("ram16($f0) == (ram($f0) + ram($f1) * 256)", 1))
+    c.append(("(ram16($f2) >> 8) == ram($f3)", 1))
+    c.append(("(ram16($f2) % 256) == ram($f2)", 1))
     c.append(("ram($1%02x) >= 0" % ((sp + 1) & 255), 1))
     m = re.match(r"sta (\$[0-9a-f]{2})$", prev_text or "")
     if m:
@@ -581,6 +585,10 @@ def choose_inserts(rng, prj, t, sym, steps):
                  "text": ".assert" + pad + text + ((" \"%s\"" % msg) if msg else ""), "expr_at": len(".assert" + pad)}
             items.append(d)
             remaining -= 1
+            for key in ("ram16(", "ram(", "cpu.flags.", "cpu.sp", "*", "defined(", "\"", "<<", "/", "%"):
+                if key in text:
+                    info.setdefault("forms", {})
+                    info["forms"][key] = info["forms"].get(key, 0) + 1
             if val is None:
                 info["unknown"] += 1
             elif val:
@@ -763,6 +771,9 @@ def run(chk):
             dist["assert_at_revisited_pc"] += info["multi_visit"]
             dist["traces"] += info["traces"]
             dist["unreached_asserts"] += info["unreached"]
+            for k2, v2 in info.get("forms", {}).items():
+                dist.setdefault("assert_forms", {})
+                dist["assert_forms"][k2] = dist["assert_forms"].get(k2, 0) + v2
         for t in prj["tests"]:
             for k, v in t["gen"].kinds.items():
                 dist["instr_kinds"][k] = dist["instr_kinds"].get(k, 0) + v
